@@ -1,6 +1,6 @@
 #!/bin/sh
 # usage: tools/try_seed.sh <patch.diff> PROP [PROP...]   — apply a seeded change to /repo, run the checks, undo it
-P="$1"; shift
+P="$(realpath "$1")"; shift
 cd /verif
 if ! git -C /repo diff --quiet; then echo "/repo has uncommitted changes"; exit 3; fi
 git -C /repo apply "$P" || { echo "patch does not apply"; exit 3; }
